@@ -41,7 +41,7 @@ func (c *Ctx) nameGuard(f *ssa.Function, param string, names []string, protect [
 	}
 	fromParam := func(v ssa.Value) bool {
 		return engine.AnyBackward(v, engine.FlowOpts{Loads: true, Calls: func(call *ssa.Call) []ssa.Value {
-			if sc := call.Call.StaticCallee(); sc != nil && (sc.Name() == "ToLower" || sc.Name() == "ToUpper" || sc.Name() == "TrimSpace") {
+			if sc := call.Call.StaticCallee(); sc != nil && (engine.ShortName(sc) == "ToLower" || engine.ShortName(sc) == "ToUpper" || engine.ShortName(sc) == "TrimSpace") {
 				return call.Call.Args
 			}
 			return nil
@@ -80,16 +80,16 @@ func (c *Ctx) nameGuard(f *ssa.Function, param string, names []string, protect [
 			if sc == nil {
 				return false
 			}
-			if (sc.Name() == "EqualFold" || sc.Name() == "HasPrefix") && len(call.Call.Args) == 2 && engine.PkgPathOf(sc) == "strings" {
+			if (engine.ShortName(sc) == "EqualFold" || engine.ShortName(sc) == "HasPrefix") && len(call.Call.Args) == 2 && engine.PkgPathOf(sc) == "strings" {
 				a0, a1 := call.Call.Args[0], call.Call.Args[1]
 				if !((from(a0) && isName(a1)) || (from(a1) && isName(a0))) {
 					return false
 				}
-				if sc.Name() == "HasPrefix" {
+				if engine.ShortName(sc) == "HasPrefix" {
 					// HasPrefix must be on a case-folded value
 					return engine.AnyBackward(a0, engine.FlowOpts{Loads: true}, func(x ssa.Value) bool {
 						if cl, ok := x.(*ssa.Call); ok {
-							if s2 := cl.Call.StaticCallee(); s2 != nil && (s2.Name() == "ToLower" || s2.Name() == "ToUpper") {
+							if s2 := cl.Call.StaticCallee(); s2 != nil && (engine.ShortName(s2) == "ToLower" || engine.ShortName(s2) == "ToUpper") {
 								return true
 							}
 						}
@@ -113,7 +113,7 @@ func (c *Ctx) nameGuard(f *ssa.Function, param string, names []string, protect [
 			}
 			fromG := func(v ssa.Value) bool {
 				return engine.AnyBackward(v, engine.FlowOpts{Loads: true, Calls: func(call *ssa.Call) []ssa.Value {
-					if s3 := call.Call.StaticCallee(); s3 != nil && (s3.Name() == "ToLower" || s3.Name() == "ToUpper" || s3.Name() == "TrimSpace") {
+					if s3 := call.Call.StaticCallee(); s3 != nil && (engine.ShortName(s3) == "ToLower" || engine.ShortName(s3) == "ToUpper" || engine.ShortName(s3) == "TrimSpace") {
 						return call.Call.Args
 					}
 					return nil
@@ -349,7 +349,7 @@ func c20(c *Ctx) {
 					continue
 				}
 				if call, ok := iff.Cond.(*ssa.Call); ok {
-					if sc := call.Call.StaticCallee(); sc != nil && sc.Name() == "Is" && len(call.Call.Args) == 2 {
+					if sc := call.Call.StaticCallee(); sc != nil && engine.ShortName(sc) == "Is" && len(call.Call.Args) == 2 {
 						if ld, ok := call.Call.Args[1].(*ssa.UnOp); ok {
 							if g, ok := ld.X.(*ssa.Global); ok && g.Name() == "ErrMessageSizeExceedsLimits" {
 								skip[engine.Edge{From: b, Succ: 0}] = true
@@ -388,7 +388,7 @@ func c20(c *Ctx) {
 					// the APPENDUID item uses the returned uid and is on the nil edge
 					okUID := false
 					for _, cs2 := range engine.Calls(f) {
-						if sc := cs2.Common().StaticCallee(); sc != nil && sc.Name() == "ItemAppendUID" {
+						if sc := cs2.Common().StaticCallee(); sc != nil && engine.ShortName(sc) == "ItemAppendUID" {
 							if ex, ok := cs2.Common().Args[1].(*ssa.Extract); ok && ex.Tuple == ssa.Value(call) && ex.Index == 0 {
 								// dominated by err == nil edge
 								for _, r := range *call.Referrers() {
@@ -415,7 +415,7 @@ func c20(c *Ctx) {
 					}
 					R.Check(okUID, "R20.2", c.name(f)+"|APPENDUID", P.Pos(call.Pos()), "OK [APPENDUID] is built on the nil edge from the UID Append returned", "the APPEND completion is not built from Append's own result on its nil-error edge")
 				}
-				if sc := cc.StaticCallee(); sc != nil && (sc.Name() == "AppendRegular" || sc.Name() == "actionCreateMessage") {
+				if sc := cc.StaticCallee(); sc != nil && (engine.ShortName(sc) == "AppendRegular" || engine.ShortName(sc) == "actionCreateMessage") {
 					R.Fail("R20.2", c.name(f)+"|direct-append", P.Pos(cs.Pos()), "handleAppend bypasses AppendOnlyMailbox.Append")
 				}
 			}
@@ -430,7 +430,7 @@ func c20(c *Ctx) {
 	for _, f := range c.funcsInPkg("internal/state") {
 		for _, cs := range engine.Calls(f) {
 			sc := cs.Common().StaticCallee()
-			if sc == nil || sc.Name() != "RemoveMessagesFromMailbox" || sc.Signature.Recv() != nil {
+			if sc == nil || engine.ShortName(sc) != "RemoveMessagesFromMailbox" || sc.Signature.Recv() != nil {
 				continue
 			}
 			// package-level state.RemoveMessagesFromMailbox(ctx, tx, mboxID, ids)
@@ -473,7 +473,7 @@ func c20(c *Ctx) {
 			ok := false
 			for _, cs2 := range engine.Calls(f) {
 				sc2 := cs2.Common().StaticCallee()
-				if sc2 == nil || sc2.Name() != "Erase" || engine.RecvNamed(sc2) == nil || engine.RecvNamed(sc2).Obj().Name() != "MessageHashesMap" {
+				if sc2 == nil || engine.ShortName(sc2) != "Erase" || engine.RecvNamed(sc2) == nil || engine.RecvNamed(sc2).Obj().Name() != "MessageHashesMap" {
 					continue
 				}
 				if len(cs2.Common().Args) == 2 && cs2.Common().Args[1] == idsArg {
@@ -490,7 +490,7 @@ func c20(c *Ctx) {
 	if cr := c.fn("R20.5", "internal/state.(*State).actionCreateRecoveredMessage"); cr != nil {
 		var ins *ssa.Call
 		for _, cs := range engine.Calls(cr) {
-			if sc := cs.Common().StaticCallee(); sc != nil && sc.Name() == "Insert" && engine.RecvNamed(sc) != nil && engine.RecvNamed(sc).Obj().Name() == "MessageHashesMap" {
+			if sc := cs.Common().StaticCallee(); sc != nil && engine.ShortName(sc) == "Insert" && engine.RecvNamed(sc) != nil && engine.RecvNamed(sc).Obj().Name() == "MessageHashesMap" {
 				ins, _ = cs.Instr.(*ssa.Call)
 			}
 		}
@@ -550,7 +550,7 @@ func recoveryCalls(f *ssa.Function, depth int) map[ssa.Instruction]bool {
 		for _, a := range cs.Common().Args {
 			if fn := engine.FuncValue(a); fn != nil && fn.Parent() != nil {
 				for _, cs2 := range engine.Calls(fn) {
-					if sc := cs2.Common().StaticCallee(); sc != nil && sc.Name() == "actionCreateRecoveredMessage" {
+					if sc := cs2.Common().StaticCallee(); sc != nil && engine.ShortName(sc) == "actionCreateRecoveredMessage" {
 						cut[cs.Instr] = true
 					}
 				}
